@@ -1,15 +1,19 @@
 (** Model of ribs/archives/_grid_archive.py : GridArchive.index_of / index_of_single /
     grid_to_int_index / int_to_grid_index, over exact rationals (every finite float is one).
 
-    Python (per batch row, vectorised over dimensions):
+    Python BEFORE fixes/F1.patch (per batch row, vectorised over dimensions):
         grid_indices = ((dims * (measures - lower_bounds) + epsilon) / interval_size).astype(int32)
         grid_indices = np.clip(grid_indices, 0, dims - 1)
         return np.ravel_multi_index(grid_indices.T, dims)
 
-    [grid_idx1] is the INTENDED behaviour the property requires: integer cast = truncation toward
-    zero with no wrap-around, then clip.  [grid_idx1_clip_first] is the shape of the repaired code
+    Python after fixes/F1.patch (the code this development describes):
+        grid_indices = (dims * (measures - lower_bounds) + epsilon) / interval_size
+        grid_indices = np.clip(grid_indices, 0, dims - 1).astype(int32)
+
+    [grid_idx1] is the behaviour the property requires: integer cast = truncation toward
+    zero with no wrap-around, then clip.  [grid_idx1_clip_first] is the shape of the REPAIRED code
     (clip in floating point, then cast; fixes/F1.patch), proved equal to it in Proofs/GridProofs.v.
-    [grid_idx1_int32_first] is the UNCHANGED code: the float -> int32 cast comes first and wraps every
+    [grid_idx1_int32_first] is the PRE-FIX code (shown above): the float -> int32 cast comes first and wraps every
     out-of-range value to -2^31 (observed x86-64/numpy semantics), so far-away coordinates fall into
     cell 0 instead of the nearest edge cell (finding F1; [grid_edge_high_refuted_for_int32_first]).
 
@@ -75,7 +79,7 @@ Definition grid_index_of (eps : Q) (cfg : list gdim) (ms : list (list Q)) : list
 Definition grid_index_of_single (eps : Q) (cfg : list gdim) (m : list Q) : Z :=
   nth 0 (grid_index_of eps cfg [m]) 0%Z.
 
-(** the unchanged code, all dimensions (for the refutation and for the harness to name what the
+(** the pre-fix code, all dimensions (for the refutation and for the harness to name what the
     implementation computed when it disagrees) *)
 Definition grid_index_of_one_int32_first (eps : Q) (cfg : list gdim) (m : list Q) : Z :=
   grid_to_int_index cfg (grid_cells grid_idx1_int32_first eps cfg m).
